@@ -114,6 +114,14 @@ impl Device {
             Operation::Lpm if !op_args.is_empty() => self.allow(NoLpmX),
             Operation::Elpm if !op_args.is_empty() => self.allow(NoElpmX),
             Operation::Ld | Operation::St | Operation::Ldd | Operation::Std => {
+                // ld/st written with a displacement is encoded as ldd/std
+                let displaced = op_args.iter().any(|arg| match arg {
+                    InstructionOps::Index(IndexOps::PostIncrementE(_, _)) => true,
+                    _ => false,
+                });
+                if displaced && !self.check_operation(&Operation::Ldd) {
+                    return false;
+                }
                 op_args.iter().all(|arg| match arg {
                     InstructionOps::Index(
                         IndexOps::None(r16)
